@@ -17,21 +17,32 @@ W(m) == m.cfg.collect
 InitKnown(m) == m.cfg.initMin = m.cfg.initMax
 RRKnown(m) == m.cfg.rrMin = m.cfg.rrMax
 
+\* Answers pending for an instance that is stopped.  One that may already sit in the collector (its delay has elapsed) may
+\* still leave with it.  One whose delay has not elapsed is STALE: it is no longer required, and it may be sent only if, when its
+\* turn comes, the instance has been started again and has already sent its first offer -- a stopped instance and one in its
+\* initial wait phase stay silent.
+Stopped(pend, z, w) ==
+  [j \in DOMAIN pend |-> IF pend[j].inst \notin z THEN pend[j]
+                         ELSE IF pend[j].lo = 0 THEN [pend[j] EXCEPT !.must = FALSE, !.hi = IF @ > w THEN w ELSE @]
+                         ELSE [pend[j] EXCEPT !.must = FALSE, !.stale = TRUE]]
+
 Api(m, e) ==
   LET a == Starts(m, e)  z == Stops(m, e)
       m1 == Life(m, e)
       m2 == [m1 EXCEPT !.till  = [i \in DOMAIN @ |-> IF i \in a THEN (IF InitKnown(m) THEN m.cfg.initMin ELSE -1) ELSE @[i]],
                        !.first = [i \in DOMAIN @ |-> IF i \in a \cup z THEN FALSE ELSE @[i]],
                        !.grace = [i \in DOMAIN @ |-> IF i \in z /\ W(m) > 0 THEN W(m) + 1 ELSE @[i]],
-                       \* answers owed by an instance that is stopped meanwhile are no longer required (C10 forbids them)
-                       !.pend  = [j \in DOMAIN @ |-> IF @[j].inst \in z THEN [@[j] EXCEPT !.must = FALSE] ELSE @[j]]]
+                       \* answers owed by an instance that is stopped meanwhile: one whose delay has not yet elapsed can no longer be
+                       \* sent at all (a stopped instance and, after a restart, one in its initial wait phase stay silent); one that
+                       \* may already sit in the collector may still leave with it, and is no longer required
+                       !.pend  = Stopped(@, z, W(m))]
   IN m2
 
 ClApplied(m) ==
   LET z == IF m.cl THEN {i \in Announced(m) : m.run[i]} ELSE {}
   IN [Settled(m) EXCEPT !.first = [i \in DOMAIN @ |-> IF i \in z THEN FALSE ELSE @[i]],
                         !.grace = [i \in DOMAIN @ |-> IF i \in z /\ W(m) > 0 THEN W(m) + 1 ELSE @[i]],
-                        !.pend  = [j \in DOMAIN @ |-> IF @[j].inst \in z THEN [@[j] EXCEPT !.must = FALSE] ELSE @[j]]]
+                        !.pend  = Stopped(@, z, W(m))]
 
 Status(m, i) ==   \* "must", "may", "not"
   IF ~m.run[i] THEN "not"
@@ -47,7 +58,7 @@ Finds(m, src, mc, es) ==
            new == IF en.ty # "find" THEN <<>>
                   ELSE LET hit == SelectSeq(m.annl, LAMBDA i : FindMatches(m, i, en.svc) /\ Status(m, i) # "not")
                        IN [j \in DOMAIN hit |->
-                             [inst |-> hit[j], dst |-> src, must |-> Status(m, hit[j]) = "must",
+                             [inst |-> hit[j], dst |-> src, must |-> Status(m, hit[j]) = "must", stale |-> FALSE,
                               lo |-> IF ~mc THEN 0 ELSE IF RRKnown(m) THEN m.cfg.rrMin ELSE -1,
                               hi |-> IF ~mc THEN W(m) ELSE IF RRKnown(m) THEN m.cfg.rrMin + W(m) ELSE -1]]
        IN Finds([m EXCEPT !.pend = @ \o new], src, mc, Tail(es))
@@ -77,7 +88,7 @@ Undrawn(m) ==
 Answer(m, dst, en) ==
   LET is == InstOfSvc(m, en.svc)
       P(must) == {j \in DOMAIN m.pend : m.pend[j].inst \in is /\ m.pend[j].dst = dst /\ m.pend[j].must = must
-                                        /\ m.pend[j].lo = 0}
+                                        /\ m.pend[j].lo = 0 /\ (~m.pend[j].stale \/ Status(m, m.pend[j].inst) # "not")}
       First(S) == CHOOSE j \in S : \A x \in S : m.pend[j].hi < m.pend[x].hi \/ (m.pend[j].hi = m.pend[x].hi /\ j <= x)
       drop(q, j) == SubSeq(q, 1, j - 1) \o SubSeq(q, j + 1, Len(q))
       m1 == IF P(TRUE) # {}
@@ -86,6 +97,8 @@ Answer(m, dst, en) ==
                  IN IF E = {} THEN [m EXCEPT !.pend = drop(@, jm)]
                     ELSE [m EXCEPT !.pend = drop([@ EXCEPT ![jm].must = FALSE], First(E))]
             ELSE IF P(FALSE) # {} THEN [m EXCEPT !.pend = drop(@, First(P(FALSE)))]
+            ELSE IF \E j \in DOMAIN m.pend : m.pend[j].inst \in is /\ m.pend[j].dst = dst /\ m.pend[j].stale /\ m.pend[j].lo = 0
+                 THEN Fail(m, "answer_from_an_instance_stopped_meanwhile_and_not_ready_again")
             ELSE IF \E j \in DOMAIN m.pend : m.pend[j].inst \in is /\ m.pend[j].dst = dst THEN Fail(m, "answer_before_its_delay")
             ELSE IF is = {} THEN Fail(m, "unknown_identity")
             ELSE IF \A i \in is : ~m.run[i] THEN Fail(m, "answer_from_stopped_instance")
